@@ -70,8 +70,8 @@ Proof. vm_compute. reflexivity. Qed.
 Example draw_integers_ok_ex : tints c0 5 8 7 = (mkCoin 12659942608561989065 5, Ok [0; 3; 1; 3; 5]).
 Proof. vm_compute. reflexivity. Qed.
 
-(* duplicates are not removed (3 occurs twice above); count = domain size and non-powers of two panic *)
-Example draw_integers_panic_count : tints c0 8 8 7 = (c0, Panic).
+(* duplicates are not removed (3 occurs twice above); count = domain size is an error, a non-power of two panics *)
+Example draw_integers_err_count : tints c0 8 8 7 = (c0, Err).
 Proof. vm_compute. reflexivity. Qed.
 Example draw_integers_panic_pow2 : tints c0 3 6 7 = (c0, Panic).
 Proof. vm_compute. reflexivity. Qed.
